@@ -902,7 +902,12 @@ impl<'a> CompilerState<'a> {
                 let mut px = pair.into_inner();
                 let mut s = self.compile_quoted_string(px.next().unwrap())?;
                 let size = if let Some(x) = px.next() {
-                    Some(self.parse_calc(x.into_inner())? as u32)
+                    let start = x.as_span().start();
+                    let n = self.parse_calc(x.into_inner())?;
+                    if !(0..=65536).contains(&n) {
+                        return Err(self.syntax_error("Bad size of assembler code", start));
+                    }
+                    Some(n as u32)
                 } else {
                     None
                 };
